@@ -49,7 +49,9 @@ RULE = ("(1) all 65536 status codes through the real code_to_category vs an inde
         "service classes with a handler yielding (X, data) then two more Pending results, X over every code of the "
         "service's own status table(s) (quick: the 0xCxxx 'unable to process' range is reduced to its boundaries, "
         "individually described codes and 200 seeded samples; C-MOVE additionally reduced because each probe opens a "
-        "real sub-association) + 50 seeded codes outside the table.  distinct = (monitor, service/table, code); "
+        "real sub-association) + 50 seeded codes outside the table; (3c) a Q/R C-FIND SCP half way through its matches "
+        "while another association of the same AE is served a C-GET / C-MOVE / other C-FIND service (different status table), "
+        "then yielding 0xFF01.  distinct = (monitor, service/table, code); "
         "non-trivial = every evaluation (each one compares a real result with the reference)")
 ASSUMPTIONS = [
     "reference categories (PS3.7 Annex C, PS3.4): 0x0000 Success; 0xFF00/0xFF01 Pending; 0xFE00 Cancel; Warning 0x0001, "
@@ -78,7 +80,8 @@ def REQUIRE(tier):
          "scu_probes": 600, "scu_pending_continued": 16, "scu_nonpending_stopped": 500,
          "scu_b001_repository_unasserted": 1,
          "scp_probes": 700, "scp_pending_nonfinal_with_identifier": 10, "scp_pending_nonfinal": 13,
-         "scp_nonpending_final": 500, "scp_outside_table_probes": 300}
+         "scp_nonpending_final": 500, "scp_outside_table_probes": 300,
+         "scp_concurrent_probes": 6}
     if tier == "thorough":
         r.update({"scp_probes": 25000, "scp_table_probes": 24000, "scu_probes": 5000,
                   "scu_nonpending_stopped": 4900})
@@ -192,8 +195,11 @@ def gen_cases(tier, seed):
                 n = 2
         for k in range(n):
             cases.append({"part": "scp", "service": svc, "shard": k, "nshards": n, "seed": seed, "tier": tier})
+    for i in range(2 if tier == "quick" else 20):
+        for second in CONCURRENT_SECOND:
+            cases.append({"part": "scp-concurrent", "second": second, "i": i})
     # longest first so that the shards balance
-    order = {"scp": 0, "scu": 1, "tables": 2, "categories": 3}
+    order = {"scp": 0, "scu": 1, "scp-concurrent": 2, "tables": 2, "categories": 3}
     cases.sort(key=lambda c: order[c["part"]])
     return cases
 
@@ -215,6 +221,8 @@ def run_case(case):
         return run_scu(case)
     if part == "scp":
         return run_scp(case)
+    if part == "scp-concurrent":
+        return run_scp_concurrent(case)
     return {"key": "bad-case", "nontrivial": False, "violations": [], "counters": {}, "inconclusive": "unknown part"}
 
 
@@ -829,6 +837,115 @@ def run_scp(case):
 
 
 # ------------------------------------------------------------------ evidence
+
+
+# ------------------------------------------------------------------ (3c) two associations served at the same time
+
+CONCURRENT_SECOND = ["qr-get", "qr-move", "relevant-patient", "substance-administration"]
+
+
+def run_scp_concurrent(case):
+    """A Q/R C-FIND whose handler is half way through its matches while ANOTHER association of the same AE is served a
+    request of a different service (different status table).  The C-FIND must still treat 0xFF01 as Pending (non-final)
+    and end with a final response; the other request must get exactly one final response."""
+    from pynetdicom import evt
+    from vlib import cmdset, harness, ps38
+    from vlib.peer import Peer
+    second = case["second"]
+    op2, sop2, _names2, _pend2 = SERVICES[second]
+    _op1, sop1, _n1, _p1 = SERVICES["qr-find"]
+    in_find, go = threading.Event(), threading.Event()
+    log = []
+    viol = []
+    counters = {"scp_concurrent_probes": 0}
+
+    def handle_find(event):
+        if event.request.AffectedSOPClassUID != sop1:
+            log.append("second-find")
+            return
+        log.append("start")
+        yield 0xFF00, _ident_ds("M1")
+        in_find.set()
+        go.wait(15.0)
+        log.append("resumed")
+        yield 0xFF01, _ident_ds("M2")
+        log.append("after-ff01")
+        yield 0xFF00, _ident_ds("M3")
+        log.append("after-3")
+
+    def handle_get(event):
+        log.append("second-get")
+        yield 0
+
+    def handle_move(event):
+        log.append("second-move")
+        yield None, None
+
+    ae = harness.make_ae("C28SCP", timeouts=(5.0, 5.0, 60.0, 5.0),
+                         supported=[(sop1, IMPLICIT), (sop2, IMPLICIT), (VERIFICATION, IMPLICIT)])
+    pa = pb = None
+    inc = None
+    a_stats, b_stats = [], []
+    try:
+        _server, port = harness.start_server(ae, [(evt.EVT_C_FIND, handle_find), (evt.EVT_C_GET, handle_get), (evt.EVT_C_MOVE, handle_move)])
+
+        def connect(sop, calling):
+            p = Peer.connect(port)
+            ac = p.associate(ps38.make_rq(called="C28SCP", calling=calling, pcs=[{"id": 1, "abs": sop, "ts": [IMPLICIT]}]))
+            if not ac or ac.get("type") != "AC" or set(p.accepted) != {1}:
+                p.close()
+                raise _Lost("association not accepted")
+            return p
+
+        def collect(p, op, into, timeout):
+            while True:
+                m = p.recv_dimse(timeout)
+                if m is None or m.get("type") != "DIMSE":
+                    into.append(None if m is None else m.get("type"))
+                    return
+                st = m["cmd"].get("Status")
+                if m["cmd"].get("CommandField") != cmdset.COMMAND_FIELD[RSP_KIND[op]]:
+                    continue
+                into.append(st)
+                if st not in (0xFF00, 0xFF01):
+                    return
+        pa = connect(sop1, "C28PEERA")
+        pa.send_dimse(1, cmdset.make("C-FIND-RQ", AffectedSOPClassUID=sop1, MessageID=1, Priority=2, CommandDataSetType=0x0001), ident_bytes("Q*"))
+        m = pa.recv_dimse(6.0)
+        a_stats.append(m["cmd"].get("Status") if m and m.get("type") == "DIMSE" else None)
+        if not in_find.wait(6.0):
+            raise _Lost("C-FIND handler did not reach its second match; %r" % (a_stats,))
+        pb = connect(sop2, "C28PEERB")
+        kw = dict(AffectedSOPClassUID=sop2, MessageID=2, Priority=2, CommandDataSetType=0x0001)
+        if op2 == "move":
+            kw["MoveDestination"] = "NOWHERE"
+        pb.send_dimse(1, cmdset.make(RQ_KIND[op2], **kw), ident_bytes("Q*"))
+        collect(pb, op2, b_stats, 6.0)
+        go.set()
+        collect(pa, "find", a_stats, 6.0)
+        counters["scp_concurrent_probes"] = 1
+        detail = ("Q/R C-FIND on association A: handler yields 0xFF00, then (while a %s request on %s is served on association B of the "
+                  "same AE) 0xFF01, 0xFF00 and ends; A received statuses %s, B received %s; handler log %s" % (
+                      OPKEY[op2].upper(), second, ["0x%04X" % x if isinstance(x, int) else x for x in a_stats],
+                      ["0x%04X" % x if isinstance(x, int) else x for x in b_stats], log))
+        if a_stats != [0xFF00, 0xFF01, 0xFF00, 0x0000]:
+            what = "treated-as-final" if "after-ff01" not in log else "no-final-response" if a_stats[-1:] != [0x0000] else "responses-differ"
+            viol.append({"key": "scp-finality|c-find|Pending|%s|qr-find|while-%s-on-another-association" % (what, second), "detail": detail})
+        if len(b_stats) != 1 or not isinstance(b_stats[0], int) or ref_category(b_stats[0]) == "Pending":
+            viol.append({"key": "scp-finality|%s|final|no-single-final-response|%s|while-c-find-on-another-association" % (OPKEY[op2], second),
+                         "detail": detail})
+    except (_Lost, OSError) as exc:
+        inc = "concurrent probe lost: %s; log %r" % (exc, log)
+    finally:
+        go.set()
+        for p in (pa, pb):
+            if p is not None:
+                p.close()
+        harness.stop_ae(ae)
+    return {"key": "scp-concurrent-%s-%d" % (second, case["i"]), "nontrivial": inc is None,
+            "sample": {"part": "scp-concurrent", "second": second, "a": a_stats, "b": b_stats, "log": log},
+            "violations": _dedup(viol), "counters": counters, "inconclusive": inc}
+
 
 def extra_evidence(tier, results):
     ev = {"exhaustive_scope": "monitors (1) all 65536 codes and (2) every entry of every status table; the finality "
